@@ -1,5 +1,6 @@
 import Pyrealb.Driver.Proto
 import Pyrealb.Model.HeapOps
+import Pyrealb.Model.HeapClone
 /-! JSON handlers of the `tree` family (C11; the store ops are shared with C03/C13):
 `hist` (histories on the store, a snapshot after every op), `getelems`, `typ` (successive `.typ` calls + every reader). -/
 namespace Pyrealb.Driver.TreeOps
@@ -175,6 +176,72 @@ def histOp : Handler := fun j => do
   let (snaps, fin) := histLoop {} ops []
   pure (Json.mkObj [("snaps", Json.arr snaps.toArray), ("end", Json.str fin)])
 
+/-! ### histories with `clone` and caller-owned argument objects (C13) -/
+
+partial def argJson : Arg Item → Json
+  | .none => .null
+  | .item (.node x) => toJson x
+  | .item .bad => Json.mkObj [("bad", toJson (1 : Nat))]
+  | .list l => Json.arr (l.map argJson).toArray
+
+def cellOf (j : Json) : Except String Cell :=
+  match j.getObjVal? "dict" with
+  | .ok d => do pure (.dict (← pairsOf d))
+  | .error _ => do
+    let l ← j.getObjVal? "list"
+    let a ← argsOf l
+    pure (.list a)
+
+def cellJson : Cell → Json
+  | .dict d => Json.mkObj [("dict", dictJson d)]
+  | .list l => Json.mkObj [("list", Json.arr (l.map argJson).toArray)]
+
+def copOf (j : Json) : Except String COp := do
+  let tag ← (← j.getArrVal? 0).getStr?
+  if tag == "clone" then
+    pure (.clone (← (← j.getArrVal? 1).getNat?))
+  else if tag == "cell" then
+    pure (.newCell (← cellOf (← j.getArrVal? 1)))
+  else if tag == "mut" then
+    pure (.mutCell (← (← j.getArrVal? 1).getNat?) (← cellOf (← j.getArrVal? 2)))
+  else if tag == "typC" then
+    pure (.typC (← (← j.getArrVal? 1).getNat?) (← (← j.getArrVal? 2).getNat?))
+  else if tag == "mkPC" then
+    let k ← kindOf (← (← j.getArrVal? 1).getStr?)
+    let lang ← langOf (← (← j.getArrVal? 2).getStr?)
+    pure (.mkPC k lang (← (← j.getArrVal? 3).getNat?))
+  else if tag == "addC" then
+    pure (.addC (← (← j.getArrVal? 1).getNat?) (← (← j.getArrVal? 2).getNat?) (posOf (← j.getArrVal? 3)))
+  else
+    pure (.op (← opOf j))
+
+/-- the plan of EVERY non-terminal node of the store mentions only nodes of its connected tree -/
+def allPlansLocal (h : Heap) : Bool :=
+  (List.range h.n).all (fun p =>
+    match plan h p with
+    | some acts => planLocal h p acts
+    | none => true)
+
+def worldJson (w : World) : Json :=
+  match snapJson w.heap with
+  | .obj kvs => Json.obj (kvs.insert "cells" (Json.arr (w.cells.map cellJson).toArray)
+      |>.insert "loc" (Json.bool (allPlansLocal w.heap)))
+  | j => j
+
+def chistLoop : World → List COp → List Json → List Json × String
+  | _, [], acc => (acc.reverse, "ok")
+  | w, o :: os, acc =>
+    match runCOp w o with
+    | .ok w' => chistLoop w' os (worldJson w' :: acc)
+    | .crash c => (acc.reverse, c.name)
+    | .outside => (acc.reverse, "outside")
+
+def chistOp : Handler := fun j => do
+  let a ← getArr j "ops"
+  let ops ← a.toList.mapM copOf
+  let (snaps, fin) := chistLoop {} ops []
+  pure (Json.mkObj [("snaps", Json.arr snaps.toArray), ("end", Json.str fin)])
+
 /-! ### `_getElems` -/
 
 instance : Inhabited (Arg Json) := ⟨.none⟩
@@ -233,6 +300,6 @@ def sitesOp : Handler := fun _ =>
       (fun st => Json.str s!"{st.file}:{st.func}:{st.key}")).toArray)])
 
 def ops : List (String × Handler) :=
-  [("hist", histOp), ("getelems", getElemsOp), ("typ", typOpH), ("sites", sitesOp)]
+  [("hist", histOp), ("chist", chistOp), ("getelems", getElemsOp), ("typ", typOpH), ("sites", sitesOp)]
 
 end Pyrealb.Driver.TreeOps
